@@ -568,7 +568,7 @@ class Synth:
         e = str(c[1].type.hi[d])
         if self.rng.random() < 0.3:
             return [D_node(c[0]), L(d), L(self.rng.choice([1, 2, 3, 4])), L(0)], {"fold": True}
-        size = self.rng.choice([e, f"{e} + 1", f"{e} - 1", "2", "3", "4"])
+        size = self.rng.choice([e, f"{e} + 1", f"{e} - 1", f"{e} - 4", f"({e}) / 2", "2", "3", "4", "8", "12"])
         off = self.rng.choice([0, 0, 1, -1, 2])
         return [D_node(c[0]), L(d), L(size), L(off)]
 
